@@ -229,6 +229,41 @@ def seq_fn(sc, sp):
     return fn
 
 
+def seq3_fn(sp, sq):
+    """depth 3 by sequence identity: child on inner, inner on mid, mid on top; every child interval (native loop)"""
+
+    def fn(ps, pe, qs, qe):
+        ps, pe, qs, qe = concretize(ps, pe, qs, qe)
+        with untraced():
+            top_seq = Sequence(TAG12, Alphabet.NT_EXTENDED, id="top", type="type2")
+            top = Parent(id="top", sequence_type="type2", sequence=top_seq)
+            pl1 = SingleInterval(ps, pe, sp, parent=top)
+            mid_seq = Sequence(str(pl1.extract_sequence()), Alphabet.NT_EXTENDED, id="mid", type="type1",
+                               parent=Parent(id="top", sequence_type="type2", sequence=top_seq, location=SingleInterval(ps, pe, sp)))
+            mid = Parent(id="mid", sequence_type="type1", sequence=mid_seq)
+            pl2 = SingleInterval(qs, qe, sq, parent=mid)
+            inner_seq = Sequence(str(pl2.extract_sequence()), Alphabet.NT_EXTENDED, id="inner", type="type0",
+                                 parent=Parent(id="mid", sequence_type="type1", sequence=mid_seq, location=SingleInterval(qs, qe, sq),
+                                               parent=mid_seq.parent))
+            inner = Parent(id="inner", sequence_type="type0", sequence=inner_seq)
+            n = qe - qs
+            for sc in (PLUS, MINUS):
+                for cs in range(n):
+                    for ce in range(cs + 1, n + 1):
+                        child = SingleInterval(cs, ce, sc, parent=inner)
+                        want = str(child.extract_sequence())
+                        a = child.lift_over_to_sequence(top_seq)
+                        b = child.lift_over_to_first_ancestor_of_type("type2")
+                        c = child.lift_over_to_sequence(mid_seq)
+                        if not (str(a.extract_sequence()) == want and a == b and a.parent.id == "top" and len(a) == ce - cs
+                                and str(c.extract_sequence()) == want and c.parent.id == "mid"
+                                and a.strand is sc.relative_to(sq).relative_to(sp)):
+                            return False
+            return True
+
+    return fn
+
+
 def real_parsers_fn():
     """io.parser constructors produce the hierarchies the hand-built mirrors produce (when importable)"""
 
@@ -335,6 +370,15 @@ def obligations(tier):
                            budget=600, cost=40,
                            desc="lift_over_to_sequence / by type: the lifted location extracts the same sequence from the ancestor; unknown sequence refused",
                            bounds="every child interval on every placement interval of a 12-letter tagged sequence", examples=[dict(cs=1, ce=3, ps=2, pe=9)]))
+    for sp in strands:
+        for sq in strands:
+            out.append(Obl("sequence_depth3_%s_%s" % (sname(sp), sname(sq)), seq3_fn(sp, sq), dict(ps=int, pe=int, qs=int, qe=int),
+                           lambda ps, pe, qs, qe: 0 <= ps and ps < pe and pe <= 12 and 0 <= qs and qs < qe and qe <= pe - ps and qe - qs <= 6,
+                           budget=900, cost=60,
+                           desc="three-level hierarchy: lifting by sequence identity (to the grand-parent and to the top) and by type agree, extract the "
+                                "same sequence from the ancestor, strand = product of the three strands",
+                           bounds="every placement pair on a 12-letter tagged sequence (inner length <= 6), every child interval, both child strands",
+                           examples=[dict(ps=2, pe=11, qs=1, qe=6)]))
     if parsers_importable():
         out.append(Obl("real_io_parser_constructors", real_parsers_fn(), dict(w=int), lambda w: w >= 0, budget=120, cost=5,
                        desc="io.parser.seq_chunk_to_parent / seq_to_parent build hierarchies through which lift-over gives chunk offsets and back",
